@@ -122,11 +122,18 @@ def render_x(xs, target, pkg, obj, trace):
         union = " a int\n b int"
         actions = ["Steps++; if Steps > %d { panic(\"STEPLIMIT\") }; Log = append(Log, %s); %s" %
                    (STEP_LIMIT, "reduceIndex" if xs.get("log_by_param") else str(i + 1), _assign(xs, i)) for i in range(len(xs["rules"]))]
+        # some actions hold the two characters that end a block comment inside a string literal: the action text must
+        # reach the compiler verbatim (the generator also shows it inside a comment, where it may not)
+        actions = [a + ("; if \"*/\" != \"*\" + \"/\" { Log = append(Log, -7) }" if i % 4 == 1 else "") for i, a in enumerate(actions)]
+        if trace:
+            # a run whose input starts with `!` begins with tracing off; the first action executed switches it on
+            actions = ["if LateTrace { IsTrace = true }; " + a for a in actions]
     else:
         prologue = "// generated for verification"
         union = " a :number;\n b :number;"
         actions = ["Steps++; if (Steps > %d) { throw new Error(\"STEPLIMIT\") }; Log.push(%s); %s" %
                    (STEP_LIMIT, "reduceIndex" if xs.get("log_by_param") else str(i + 1), _assign(xs, i)) for i in range(len(xs["rules"]))]
+        actions = [a + ("; if (\"*/\" != \"*\" + \"/\") { Log.push(-7) }" if i % 4 == 1 else "") for i, a in enumerate(actions)]
     out = ["%{\n" + prologue + "\n%}\n", "%union {\n" + union + "\n}\n"]
     # some terms get their value tag in a LATER %token line of their own: a named token after `%token NAME [number]`,
     # a literal after the precedence line that first mentions it
@@ -199,8 +206,10 @@ func GetToken(input string, valTy *ValType, pos *int) int {
 	if len(input)%%2 == 0 && *pos == len(input)-1 { pend = int(input[*pos] - 'a'); pendPos = *pos; *pos++ }
 	return codeOf(c)
 }
+var LateTrace = false
 func Run(input string) (verdict string, log []int, val int, req int) {
-	Log = nil; Req = 0; Steps = 0; pend = -1; IsTrace = %s
+	Log = nil; Req = 0; Steps = 0; pend = -1; IsTrace = %s; LateTrace = false
+	if strings.HasPrefix(input, "!") { input = input[1:]; LateTrace = IsTrace; IsTrace = false }
 	defer func() {
 		if e := recover(); e != nil {
 			s := fmt.Sprint(e)
@@ -501,6 +510,9 @@ func main() {
                     m = meta["%s|%s" % (c["id"], v[3])]
                     for w in c["inputs"]:
                         lines.append("%s %s" % (m["pkg"], w))
+                    if trace:
+                        for w in [x for x in c["inputs"] if x][:12]:
+                            lines.append("%s !%s" % (m["pkg"], w))
             r = common.sh(["bash", "-c", "ulimit -v 8000000; exec %s" % os.path.join(work, "runner.bin")],
                           inp=("\n".join(lines) + "\n").encode(), timeout=timeout)
             res["runner_rc"] = r.returncode
@@ -893,6 +905,7 @@ E : E '+' E { $$ = $1 + $3 }
   | Q NUM { $$ = $1 * 1000 + $2 }
   ;
 Q : SUB { PushContex(); ParserInit(); v := Parser($1); PopContex(); $$ = v.val * 2 }
+  | SUB '&' SUB { PushContex(); ParserInit(); l := Parser($1); PopContex(); PushContex(); ParserInit(); r := Parser($3); PopContex(); $$ = l.val * 100 + r.val }
   ;
 %%
 func GetToken(input string, valTy *ValType, pos *int) int {
@@ -910,6 +923,9 @@ func GetToken(input string, valTy *ValType, pos *int) int {
 	case c == '*':
 		*pos++
 		return '*'
+	case c == '&':
+		*pos++
+		return '&'
 	case c == '{':
 		depth, i := 0, *pos
 		for ; i < len(input); i++ {
@@ -940,7 +956,9 @@ func main() {
 NESTED_INPUTS = ["1+2", "{2}", "1+{2}", "100+{2+}", "1+{2}", "{1+{2}}", "7+{{3}+1}", "50+{{4+}+1}", "1+{2}", "{{1}+{2}}+3",
                  "9+", "1+{2}", "{", "3+{4}+{5+{6}}", "100+{+}", "{1}+{2}", "{1+2}5", "4+{3}7", "{{2}9}1+{6}8", "{10}7+1",
                  # the nested parse starts while the outer stack is LOWER than it has been before (after `2*3` was reduced)
-                 "1+2*3+{4}", "2*3*4+{1+1}", "1+2*{3}", "5*6+{7*{8}}+1", "1+2*3+{4+}", "2*{1+2}3+1"]
+                 "1+2*3+{4}", "2*3*4+{1+1}", "1+2*{3}", "5*6+{7*{8}}+1", "1+2*3+{4+}", "2*{1+2}3+1",
+                 # two nested parses in one action: the result of the first is read after the second has run
+                 "{1+2}&{3*4}", "5+{7}&{2}", "{{1}&{2}}&{9}", "{3}&{4+}", "{1}&{2}7"]
 
 
 def nested_expected(w):
@@ -978,9 +996,29 @@ def nested_expected(w):
                 if v is None:
                     return None
                 pos[0] = j + 1
-                if pos[0] < len(s) and s[pos[0]].isdigit():      # `{…}` directly followed by a number: Q NUM
-                    return 2 * v * 1000 + num()
-                return 2 * v
+                if pos[0] + 1 < len(s) and s[pos[0]] == "&" and s[pos[0] + 1] == "{":
+                    # `{…}&{…}`: two nested parses, the first result is still needed after the second
+                    depth, k = 0, pos[0] + 1
+                    while k < len(s):
+                        if s[k] == "{":
+                            depth += 1
+                        if s[k] == "}":
+                            depth -= 1
+                            if depth == 0:
+                                break
+                        k += 1
+                    if k >= len(s):
+                        return None
+                    v2 = parse(s[pos[0] + 2:k])
+                    if v2 is None:
+                        return None
+                    pos[0] = k + 1
+                    q = v * 100 + v2
+                else:
+                    q = 2 * v
+                if pos[0] < len(s) and s[pos[0]].isdigit():      # directly followed by a number: Q NUM
+                    return q * 1000 + num()
+                return q
             return None
 
         def term():
@@ -1015,6 +1053,8 @@ def nested_variant(obj, counter):
     if obj:
         y = y.replace("PushContex(); ParserInit(); v := Parser($1); PopContex(); $$ = v.val * 2",
                       "sub := MakeParserContext(); v := sub.Parser($1); $$ = v.val * 2")
+        y = y.replace("PushContex(); ParserInit(); l := Parser($1); PopContex(); PushContex(); ParserInit(); r := Parser($3); PopContex(); $$ = l.val * 100 + r.val",
+                      "sub := MakeParserContext(); l := sub.Parser($1); sub.ParserInit(); r := sub.Parser($3); $$ = l.val * 100 + r.val")
         y = y.replace("\tParserInit()\n\tv := Parser(in)\n", "\tTheCtx.ParserInit()\n\tv := TheCtx.Parser(in)\n")
         y = y.replace("func run(in string) (out string) {", "var TheCtx = MakeParserContext()\nfunc run(in string) (out string) {")
     return y
